@@ -45,6 +45,45 @@ class MyBytes(bytes):
     pass
 
 
+class Node:
+    """a tree whose children point back at their parent: an object graph with cycles"""
+
+    def __init__(self, name, parent=None):
+        self.name, self.parent, self.children = name, parent, []
+        if parent is not None:
+            parent.children.append(self)
+
+
+def cyclic_values():
+    a = [1, "two", b"three"]
+    a.append(a)
+    d = {"k": [1, 2]}
+    d["self"] = d
+    root = Node("root")
+    Node("leaf", Node("mid", root))
+    Node("leaf2", root)
+    shared = [0] * 3
+    return [a, d, root, [shared, shared, {"again": shared}], (a, d)]
+
+
+def shape(v, memo=None):
+    """the value as a nested tuple with back-references by visit number: equal shapes = equal graphs (== recurses for ever on cycles)"""
+    memo = {} if memo is None else memo
+    if isinstance(v, (list, dict, Node)):
+        if id(v) in memo:
+            return ("ref", memo[id(v)])
+        memo[id(v)] = len(memo)
+    if isinstance(v, list):
+        return ("list", tuple(shape(x, memo) for x in v))
+    if isinstance(v, tuple):
+        return ("tuple", tuple(shape(x, memo) for x in v))
+    if isinstance(v, dict):
+        return ("dict", tuple((shape(k, memo), shape(x, memo)) for k, x in v.items()))
+    if isinstance(v, Node):
+        return ("Node", v.name, shape(v.parent, memo), shape(v.children, memo))
+    return (type(v).__name__, repr(v))
+
+
 def values(ctx):
     rng = ctx.rng
     vals = [b"", b"x", b"\r\nEND\r\n", bytes(range(256)), "", "a", "\xe9€\U0001F600", "\x00", 0, 1, -1, 10 ** 50,
@@ -52,6 +91,7 @@ def values(ctx):
             (1, 2), {1, 2}, MyStr("sub"), MyInt(7), MyBytes(b"sub"), b"a" * 400, b"a" * 401, "b" * 401, 10 ** 399, 10 ** 400,
             10 ** 401, [0] * 300, bytes(rng.randrange(256) for _ in range(500)), "x" * 9, "x" * 10, "x" * 11, b"y" * 10,
             b"y" * 11, 12345678901, 123456789012]
+    vals += cyclic_values()
     for _ in range(60 if ctx.quick else 300):
         k = rng.randrange(6)
         n = rng.choice([0, 1, 5, 9, 10, 11, 50, 399, 400, 401, 1000])
@@ -79,7 +119,16 @@ def to_model(v, table):
 
 
 def same(a, b):
-    return type(a) is type(b) and (a == b or (a != a and b != b))
+    if type(a) is not type(b):
+        return False
+    if isinstance(a, (list, dict, tuple, Node)):
+        if isinstance(a, Node):
+            return shape(a) == shape(b)
+        try:
+            return bool(a == b)          # sharing between sub-objects is not part of "an equal value"
+        except RecursionError:
+            return shape(a) == shape(b)  # cyclic: == cannot decide; the graphs must match
+    return bool(a == b or (a != a and b != b))
 
 
 CODECS = [("zlib", zlib.compress, zlib.decompress), ("bz2", bz2.compress, bz2.decompress),
